@@ -26,8 +26,12 @@ def classify(dom):
 
 def measure_job(args):
     """worker: (spec, console_width, widths) -> cases / checks / notes"""
-    spec, cwidth, widths = args
+    spec, cwidth, widths = args[:3]
+    shared = len(args) > 3 and args[3]
     console = L.make_console(cwidth)
+    obj = L.guarded(lambda: L.build(spec)) if shared else None
+    if isinstance(obj, str):
+        obj = None
     cases, checks, notes = [], [], {}
 
     def note(k):
@@ -39,7 +43,7 @@ def measure_job(args):
     seen_render = set()
     rendered_vals = set()
     for w in widths:
-        m = L.real_measure(console, spec, w)
+        m = L.real_measure(console, spec, w, obj=obj)
         if isinstance(m, str):
             cases.append(("layout_measure", [FLAGS, L.env_enc(cwidth), w, tree], m, "error", None))
             checks.append((False, "Measurement.get", (spec, cwidth, w), f"measuring raised {m[4:]}", None))
@@ -53,7 +57,7 @@ def measure_job(args):
             if val < 1 or (val, which) in seen_render:
                 continue
             seen_render.add((val, which))
-            out = L.real_text(console, spec, {}, val)
+            out = L.real_text(console, spec, {}, val, obj=obj)
             impl = out if out.startswith("err:") else "ok:" + enc_str(out)
             if val not in rendered_vals:
                 rendered_vals.add(val)
@@ -139,7 +143,7 @@ def run(ctx):
     jobs = []
     for spec in corner_specs():
         jobs.append((spec, 80, list(range(0, 41)) + [60, 100]))
-    n = 450 if quick else 14000
+    n = 1600 if quick else 35000
     for _ in range(n):
         d = rng.choice([1, 2, 2, 3, 3, 4])
         spec = L.gen_tree(rng, d)
@@ -151,9 +155,9 @@ def run(ctx):
         else:
             ws = sorted(set(rng.sample(range(0, 61), 6) + [0, 1]))
         ws += [rng.randint(61, 200)]
-        jobs.append((spec, cwidth, ws))
+        jobs.append((spec, cwidth, ws, rng.random() < 0.3))
     tjobs = []
-    for _ in range(1500 if quick else 40000):
+    for _ in range(4000 if quick else 80000):
         d = L.gen_text(rng)
         d.pop("overflow", None)
         tjobs.append((d,))
@@ -193,7 +197,21 @@ def replay(ctx, case):
 
 
 MANIFEST = {
-    "text": "TODO",
-    "note": "TODO",
+    "text": "Lean 4 theorems (Props/C09.lean) about the composition model Model/Layout.lean (shared with C01): `measurement_get_normal` "
+    "(whatever __rich_measure__ returns, Measurement.get answers 0 <= min <= max <= max(available,0)), `measure_normal` (the same for "
+    "`measure` of every renderable tree incl. objects without __rich_measure__ and __rich__ casts, every Python-int width), "
+    "`render_at_max_fits` / `render_at_min_fits` (rendering at the reported maximum / minimum produces no line wider than that value when "
+    "it is at or above the structural minimum: corollaries of C01.render_fits, which holds at every width), `text_measure_spec` (minimum = "
+    "widest whitespace-separated word, maximum = widest line, attained, min <= max), `text_at_max_not_wrapped` + `divide_line_nil_of_fits` "
+    "(divide_line finds no break in any paragraph at a width >= the measured maximum), and the witness "
+    "`known_group_with_progressbar_measure_unsound` (F23).  Tie: Measurement.get of real rich vs the model on ~60k (quick) / ~1.3M "
+    "(thorough) cases: corner trees and seeded random trees (generator of C01 plus casts / measure-less roots) at every available width 0..60 "
+    "and beyond, renderings at every reported maximum/minimum, random texts for Text.__rich_measure__ and wrapping at the maximum; the "
+    "statements evaluated directly on rich's answers.",
+    "note": "Partial / assumed: render-at-max/min is claimed inside C01's domain (see C01 note) and for values at or above the structural "
+    "minimum, as the property says; a group containing a ProgressBar that is not last is the known finding progressbar-no-newline (F23): its "
+    "measurement is unsound.  `text_at_max_not_wrapped` assumes `\\n` is the only line-break character of the text (str.splitlines, used by "
+    "the measurement, also breaks at FS/GS/RS/NEL/LS/PS; wrap does not).  Table.__rich_measure__ is modelled here (not in C07).  Outside the "
+    "model: zero-column tables (AssertionError in ratio_distribute), Columns(width=...), str renderables, styles.  Trusted base as C01.",
     "design_ref": "DESIGN.md section 7, C01/C07/C08/C09",
 }
